@@ -106,3 +106,55 @@ def first_type_arg(F, tnode):
         if isinstance(a, int):
             return F.ty(a)
     return None
+
+
+def inline_pure(F, t, depth=1, only=None):
+    """One-level inlining of pure, single-path crate-local helpers inside a term (DESIGN §2: `support_size`,
+    `is_whole`, ...).  `only`: optional predicate on the callee def path."""
+    from . import effects
+
+    def f(n):
+        if not (n and n[0] == 'call' and n[3] is None):
+            return None
+        if only is not None and not only(n[1]):
+            return None
+        b = F.by_def.get(n[1])
+        if b is None or b.dk not in ('Fn', 'AssocFn') or b.unsafe:
+            return None
+        _, pp = evaluate(b)
+        rs = [p for p in pp or [] if p.end == 'return']
+        if len(rs) != 1 or any(e['kind'] == 'call' and e.get('uid') is not None for e in rs[0].events) or any(e['kind'] == 'write' for e in rs[0].events):
+            return None
+        args = n[2]
+
+        def g(x):
+            if x and x[0] == 'arg' and 1 <= x[1] <= len(args):
+                return args[x[1] - 1]
+            if x and x[0] == 'in' and isinstance(x[1][0], int) and 1 <= x[1][0] <= len(args):
+                a = args[x[1][0] - 1]
+                rest = x[1][1:]
+                if rest and rest[0] == 'deref':
+                    rest = rest[1:]
+                if a[0] == 'in':
+                    return ('in', a[1] + rest)
+                if a[0] == 'arg':
+                    return ('in', (a[1],) + rest) if rest else a
+                if not rest:
+                    return a
+            return None
+        return effects.rebuild(rs[0].ret, g)
+    out = t
+    for _ in range(depth):
+        out = effects.rebuild(out, f)
+    return out
+
+
+def preds_before(res, event_index):
+    """Number of entries of res.preds that were decided before events[event_index]."""
+    n = 0
+    for e in res.events[:event_index]:
+        if e['kind'] == 'branch':
+            n += 1
+        elif e['kind'] == 'assert':
+            n += 1
+    return n
